@@ -222,10 +222,11 @@ class ASTToPymbolic(ASTMapper):
         func = self.rec(expr.func)
         args = tuple([self.rec(arg) for arg in expr.args])
         if getattr(expr, "keywords", []):
+            from immutabledict import immutabledict
             return p.CallWithKwargs(func, args,
-                    {
+                    immutabledict({
                         kw.arg: self.rec(kw.value)
-                        for kw in expr.keywords})
+                        for kw in expr.keywords}))
         else:
             return p.Call(func, args)
 
